@@ -9,6 +9,7 @@ import (
 	"flag"
 	"fmt"
 	"os"
+	"runtime/debug"
 	"strconv"
 	"time"
 
@@ -70,9 +71,18 @@ func runWorld(run *kernel.Run, world, prop string, idx int) {
 	func() {
 		defer func() {
 			if e := recover(); e != nil {
-				// a panic that escaped the world's own protection is a
-				// harness defect, not a property violation
-				run.Violate("HARNESS", "harness-panic", "simrun", 0, "%v", e)
+				// A panic that escaped the world's own protection.  Every
+				// call a world makes with arguments the library may refuse
+				// is wrapped; what arrives here from inside the library was
+				// raised on a call with valid arguments - the call the
+				// property is about did not return what it promises.  A
+				// panic raised in the harness itself is a harness defect.
+				stack := string(debug.Stack())
+				if fn, inLib := kernel.PanicOrigin(stack); inLib && prop != "" {
+					run.Violate(prop, "library-panic", fn, run.Res.Ops, "a library call with valid arguments panicked: %v (raised in %s)\n%s", e, fn, stack)
+				} else {
+					run.Violate("HARNESS", "harness-panic", "simrun", 0, "%v\n%s", e, stack)
+				}
 			}
 		}()
 		switch world {
